@@ -2,12 +2,12 @@ ID = "C45"
 LEVEL = "model_checking"
 TECHNIQUE = "CBMC bounded symbolic execution of the real event_base_loop + watch.c on a constructed base; solver-chosen free/add actions inside watcher and event callbacks; monitor automaton for phase/once/skip; cbmc pointer checks + ASan replay for use-after-free"
 UNITS = ["event.c", "watch.c", "evmap.c"]
-FUNCTIONS = ["event_base_loop", "evwatch_prepare_new", "evwatch_check_new", "evwatch_free", "evwatch_base", "evwatch_prepare_get_timeout", "event_base_free_"]
-BOUNDS = ""
-OUT = ""
-TEXT = ""
-NOTE = ""
-ASSUMPTIONS = []
+FUNCTIONS = ['event_base_loop', 'evwatch_prepare_new', 'evwatch_check_new', 'evwatch_free', 'evwatch_base', 'evwatch_prepare_get_timeout', 'event_base_free_']
+BOUNDS = '2 prepare + 2 check watchers (thorough 3+2) + 1 spare slot per type for watchers registered from callbacks; 2 event_base_loop calls (thorough 3), loop flags and fd readiness fixed per obligation; at most 2 (thorough 3) callbacks of a run take an action, which ones / which action / which target chosen by the solver; one persistent read event (I/O mode) or one 1.25 s timer (timer mode)'
+OUT = 'more watchers/iterations/actions than the bounds; freeing and registering from watcher callbacks combined in one run (each is covered alone; combined only from the event callback); evwatch_free from another thread while the callback runs; watcher order among each other (unspecified); real back ends'
+TEXT = "Real event_base_loop + watch.c on a constructed base: a monitor checks that every registered live watcher runs exactly once per iteration in its phase (prepare before the wait, check between the wait and the first event callback), that prepare watchers are told exactly the timeout dispatch receives (and the time to the next timer), that no watcher callback runs after evwatch_free, none is skipped, and cbmc's pointer checks/ASan replay decide that the loop never reads a freed watcher, for solver-chosen free-self / free-other / register actions inside watcher and event callbacks."
+NOTE = 'FINDING (obligation free_self fails on the unchanged tree, replayed natively with ASan: heap-use-after-free): a watcher that calls evwatch_free() on itself in its callback is read after free by TAILQ_FOREACH in event_base_loop (event.c:2064/2085). Fix: fixes/C45-watcher-free-in-callback.diff. Indirect calls are pinned with goto-instrument --restrict-function-pointer (asserted). Unused handle slots hold a dummy watcher (never registered/freed) so that merged pointers stay valid.'
+ASSUMPTIONS = ['constructed event_base (env/evbase.h) == event_base_new_with_config minus back-end selection/notify pipe', 'recording no-op back end; in I/O mode the fd is reported readable when the wait is unbounded (and once per non-blocking loop call)', 'allocation does not fail', 'single thread']
 DESIGN_REF = "DESIGN.md §5 C45"
 
 import os
@@ -38,14 +38,15 @@ def obligations(tier):
         _ob("evcb", ["C45_EVCB_ACTS"], "the event callback frees any watcher / registers one"),
         _ob("free_other", ["C45_ACT_OTHER"], "watcher callbacks may free any OTHER watcher (incl. the one due next)"),
         _ob("free_self", ["C45_ACT_SELF"], "watcher callbacks may free THEMSELVES (fails without fixes/C45-watcher-free-in-callback.diff: use after free in event_base_loop)"),
-        _ob("any", ["C45_ACT_SELF", "C45_ACT_OTHER", "C45_ACT_ADD", "C45_EVCB_ACTS"], "all actions from all callbacks, <=2 per run", flags=(NONBLOCK, ONCE)),
-        _ob("free_base", ["C45_ACT_OTHER", "C45_FREE_BASE"], "event_base_free releases the remaining watchers", unwind=10),
+        _ob("self_other", ["C45_ACT_SELF", "C45_ACT_OTHER"], "watcher callbacks free themselves or others, <=2 per run"),
+        _ob("free_base", ["C45_ACT_OTHER", "C45_FREE_BASE"], "event_base_free releases the remaining watchers", unwind=10, unwindset=["evmap_io_foreach_fd.0:34", "evmap_signal_foreach_signal.0:66", "evmap_io_clear_.0:34", "evmap_signal_clear_.0:66"]),
     ]
     if tier != "quick":
         big = ["C45_NP0=3", "C45_NC0=2", "C45_NLOOPS=3", "C45_MAXACT=3"]
         obs += [
-            _ob("any_big", ["C45_ACT_SELF", "C45_ACT_OTHER", "C45_ACT_ADD", "C45_EVCB_ACTS"] + big, "3 prepare + 2 check watchers, 3 loop calls, <=3 actions", flags=(ONCE, NONBLOCK, ONCE), unwind=10, timeout=2400, mem_gb=8),
+            _ob("self_other_big", ["C45_ACT_SELF", "C45_ACT_OTHER"] + big, "3 prepare + 2 check watchers, 3 loop calls, <=3 frees (self or other)", flags=(ONCE, ONCE, ONCE), unwind=10, timeout=2400, mem_gb=8),
+            _ob("evcb_big", ["C45_EVCB_ACTS"] + big, "3+2 watchers, 3 loop calls, event callback frees/registers", flags=(ONCE, ONCE, ONCE), unwind=10, timeout=2400, mem_gb=8),
             _ob("free_self_big", ["C45_ACT_SELF"] + big, "self-free, 3+2 watchers, 3 loop calls", flags=(ONCE, ONCE, ONCE), unwind=10, timeout=2400, mem_gb=8),
-            _ob("any_ndebug", ["C45_ACT_SELF", "C45_ACT_OTHER", "C45_ACT_ADD", "C45_EVCB_ACTS"], "as 'any', NDEBUG build (as shipped)", ndebug=True),
+            _ob("self_other_ndebug", ["C45_ACT_SELF", "C45_ACT_OTHER"], "as self_other, NDEBUG build (as shipped)", ndebug=True),
         ]
     return obs
